@@ -105,7 +105,9 @@ class AbstractInterpolator(ABC):
                     self._interpolate(x, cast(List[float], y), item.value),
                 )
 
-        new_instance.replacing_for_path(tuple(item.path.keys), item.value)
+        new_instance = new_instance.replacing_for_path(
+            tuple(item.path.keys), item.value
+        )
 
         return new_instance
 
